@@ -176,7 +176,12 @@ pub fn eval(expr: Node) -> Result<f64, Box<dyn error::Error>> {
                 #[cfg(feature = "verif_hooks")]
                 crate::verif_hooks::tick_loop();
                 x += 1.0;
-                n = (n.log10() / b.log10()).floor();
+                let next = (n.log10() / b.log10()).floor();
+                if next >= n {
+                    // the iterates stopped decreasing: they never reach 1
+                    return Ok(f64::INFINITY);
+                }
+                n = next;
             }
             Ok(x)
         }
